@@ -138,4 +138,464 @@ theorem serNamed_sound (cfg : Cfg) (env : Env) (n : Nat) (hS : ∀ m, m < n → 
               · simp [keysOf, hskip'] at hl4 ⊢
                 exact hl4
 
+/-- tuple fields: element-wise membership -/
+theorem serTuple_sound (cfg : Cfg) (env : Env) (n : Nat) (hS : ∀ m, m < n → Sound cfg env m) (ra : Option Rule) :
+    ∀ (f : Nat), f ≤ n → ∀ (fields : List Field) (vals : List RVal) (js : List JVal) (ts : List Ts),
+    Serde.serTuple cfg env f [] fields vals = some js → cleanVL vals = true →
+    fields.all (fieldOk cfg ra) = true → tupleTs cfg env fields = some ts →
+    MemberZip (declsOf cfg env) ts js
+  | 0, _, _, _, _, _, hs, _, _, _ => by simp [Serde.serTuple] at hs
+  | f + 1, hf, [], [], js, ts, hs, _, _, hT => by
+    simp only [Serde.serTuple, Option.some.injEq] at hs
+    simp only [tupleTs, Option.some.injEq] at hT
+    subst hs; subst hT
+    exact MemberZip.nil
+  | f + 1, hf, [], _ :: _, js, ts, hs, _, _, _ => by simp [Serde.serTuple] at hs
+  | f + 1, hf, _ :: _, [], js, ts, hs, _, _, _ => by simp [Serde.serTuple] at hs
+  | f + 1, hf, fld :: flds, v :: vs, js, ts, hs, hc, hok, hT => by
+    obtain ⟨hcv, hcvs⟩ := cleanVL_cons hc
+    simp only [List.all_cons, Bool.and_eq_true] at hok
+    obtain ⟨hfo, hrest⟩ := hok
+    simp only [Serde.serTuple, bind, Option.bind] at hs
+    cases hr : Serde.serTuple cfg env f [] flds vs with
+    | none => simp [hr] at hs
+    | some rest =>
+      simp only [hr] at hs
+      simp only [tupleTs, bind, Option.bind] at hT
+      cases hrt : tupleTs cfg env flds with
+      | none => simp [hrt] at hT
+      | some rts =>
+        simp only [hrt] at hT
+        have ih := serTuple_sound cfg env n hS ra f (by omega) flds vs rest rts hr hcvs hrest hrt
+        by_cases hskip : fld.attr.skip = true
+        · simp only [hskip, ↓reduceIte, pure, Option.some.injEq] at hs hT
+          subst hs; subst hT
+          exact ih
+        · have hskip' : fld.attr.skip = false := by simpa using hskip
+          simp only [hskip', Bool.false_eq_true, ↓reduceIte, rsubst_nil] at hs
+          simp only [hskip', Bool.false_eq_true, ↓reduceIte] at hT
+          cases hj : Serde.serTy cfg env f fld.ty v with
+          | none => simp [hj] at hs
+          | some j =>
+            cases ht : tyTs cfg env fld.ty with
+            | none => simp [ht] at hT
+            | some T =>
+              simp only [hj, pure, Option.some.injEq] at hs
+              simp only [ht, pure, Option.some.injEq] at hT
+              subst hs; subst hT
+              exact MemberZip.cons (serTy_sound cfg env n hS f (by omega) fld.ty v j T hj hcv ht) ih
+
+theorem serTuple_length (cfg : Cfg) (env : Env) : ∀ (f : Nat) (fields : List Field) (vals : List RVal) (js : List JVal),
+    Serde.serTuple cfg env f [] fields vals = some js → fields.length = vals.length
+  | 0, _, _, _, hs => by simp [Serde.serTuple] at hs
+  | f + 1, [], [], _, _ => rfl
+  | f + 1, [], _ :: _, _, hs => by simp [Serde.serTuple] at hs
+  | f + 1, _ :: _, [], _, hs => by simp [Serde.serTuple] at hs
+  | f + 1, fld :: flds, v :: vs, js, hs => by
+    simp only [Serde.serTuple, bind, Option.bind] at hs
+    cases hr : Serde.serTuple cfg env f [] flds vs with
+    | none => simp [hr] at hs
+    | some rest => simp [serTuple_length cfg env f flds vs rest hr]
+
+/-- the body of a struct / the content of a variant -/
+theorem structBody_sound (cfg : Cfg) (env : Env) (n : Nat) (hS : ∀ m, m < n → Sound cfg env m)
+    (f : Nat) (hf : f ≤ n) (ra : Option Rule) (tag : Option Str) (name : Str) (shape : Shape) (fields : List Field)
+    (vals : List RVal) (j : JVal) (T : Ts)
+    (hs : Serde.serStructBody cfg env f [] ra tag name shape fields vals = some j) (hc : cleanVL vals = true)
+    (hok : bodyOk cfg ra tag shape fields = true)
+    (hnt : ∀ fld, shape = .tuple → fields = [fld] → fld.attr.skip = false)
+    (hT : structBody cfg env ra (tag.map fun t => (t, name)) shape fields = some T) :
+    Member (declsOf cfg env) T j := by
+  cases f with
+  | zero => simp [Serde.serStructBody] at hs
+  | succ f' =>
+    simp only [bodyOk, Bool.and_eq_true] at hok
+    obtain ⟨hfields, hkeys⟩ := hok
+    cases shape with
+    | unit =>
+      simp only [Serde.serStructBody, Option.some.injEq] at hs
+      simp only [structBody, Option.some.injEq] at hT
+      subst hs; subst hT; exact Member.null
+    | named =>
+      simp only [Serde.serStructBody, bind, Option.bind] at hs
+      cases hk : Serde.serNamed cfg env f' [] ra fields vals with
+      | none => simp [hk] at hs
+      | some kvs =>
+        simp only [hk, pure, Option.some.injEq] at hs
+        simp only [structBody] at hT
+        by_cases hemp : (fields.isEmpty && (tag.map fun t => (t, name)).isNone) = true
+        · simp only [hemp, ↓reduceIte, Option.some.injEq] at hT
+          simp only [Bool.and_eq_true, List.isEmpty_iff, Option.isNone_iff_eq_none, Option.map_eq_none_iff] at hemp
+          obtain ⟨hf0, ht0⟩ := hemp
+          subst hf0; subst ht0
+          cases f' with
+          | zero => simp [Serde.serNamed] at hk
+          | succ f'' =>
+            cases vals with
+            | nil =>
+              simp only [Serde.serNamed, Option.some.injEq] at hk
+              subst hk; subst hs; subst hT
+              exact Member.emptyRecord
+            | cons _ _ => simp [Serde.serNamed] at hk
+        · simp only [hemp, Bool.false_eq_true, ↓reduceIte, bind, Option.bind] at hT
+          cases hfs : fieldsTs cfg env ra fields with
+          | none => simp [hfs] at hT
+          | some fs =>
+            simp only [hfs, pure, Option.some.injEq] at hT
+            obtain ⟨l, hl1, hl2, hl3, hl4⟩ := serNamed_sound cfg env n hS ra f' (by omega) fields vals kvs fs hk hc hfields hfs
+            have hnd : (tag.toList ++ keysOf cfg ra fields).Nodup := by simpa using hkeys
+            cases tag with
+            | none =>
+              simp only [Option.map_none, List.nil_append] at hT hs
+              subst hs; subst hT
+              rw [hl1, hl2]
+              exact obj_sound _ l (by rw [hl4]; simpa using hnd) hl3
+            | some t =>
+              simp only [Option.map_some, List.singleton_append] at hT hs
+              subst hs; subst hT
+              rw [hl1, hl2]
+              have := obj_sound (declsOf cfg env) ((t, Ts.lit name, JVal.str name) :: l)
+                (by simp only [List.map_cons, hl4]; simpa using hnd)
+                (by
+                  intro x hx
+                  rcases List.mem_cons.mp hx with rfl | hx'
+                  · exact Member.lit name
+                  · exact hl3 x hx')
+              simpa using this
+    | tuple =>
+      simp only [Serde.serStructBody] at hs
+      simp only [structBody] at hT
+      match fields, vals, hs, hT, hfields, hnt, hc with
+      | [], vals, hs, hT, _, _, _ =>
+        simp only [bind, Option.bind] at hs
+        cases hr : Serde.serTuple cfg env f' [] [] vals with
+        | none => simp [hr] at hs
+        | some js =>
+          have hlen := serTuple_length cfg env f' [] vals js hr
+          cases vals with
+          | cons _ _ => simp at hlen
+          | nil =>
+            cases f' with
+            | zero => simp [Serde.serTuple] at hr
+            | succ _ =>
+              simp only [hr, pure, Option.some.injEq] at hs
+              simp only [Serde.serTuple, Option.some.injEq] at hr
+              simp only [Option.some.injEq] at hT
+              rw [← hs, ← hT, ← hr]
+              exact Member.neverArray
+      | [fld], [v], hs, hT, hfields, hnt, hc =>
+        have hsk := hnt fld rfl rfl
+        simp only [hsk, Bool.false_eq_true, ↓reduceIte] at hT
+        simp only [rsubst_nil] at hs
+        exact serTy_sound cfg env n hS f' (by omega) fld.ty v j T hs (cleanVL_cons hc).1 hT
+      | [fld], [], hs, _, _, _, _ =>
+        simp only [bind, Option.bind] at hs
+        cases hr : Serde.serTuple cfg env f' [] [fld] [] with
+        | none => simp [hr] at hs
+        | some js => have := serTuple_length cfg env f' [fld] [] js hr; simp at this
+      | [fld], v1 :: v2 :: vr, hs, _, _, _, _ =>
+        simp only [bind, Option.bind] at hs
+        cases hr : Serde.serTuple cfg env f' [] [fld] (v1 :: v2 :: vr) with
+        | none => simp [hr] at hs
+        | some js => have := serTuple_length cfg env f' [fld] _ js hr; simp at this
+      | f1 :: f2 :: rest, vals, hs, hT, hfields, _, hc =>
+        simp only [bind, Option.bind] at hs
+        cases hr : Serde.serTuple cfg env f' [] (f1 :: f2 :: rest) vals with
+        | none => simp [hr] at hs
+        | some js =>
+          simp only [hr, pure, Option.some.injEq] at hs
+          cases hts : tupleTs cfg env (f1 :: f2 :: rest) with
+          | none => simp [hts] at hT
+          | some ts =>
+            simp only [hts, Option.map_some, Option.some.injEq] at hT
+            subst hs; subst hT
+            exact Member.tuple (serTuple_sound cfg env n hS ra f' (by omega) _ vals js ts hr hc hfields hts)
+
+theorem serStructBody_ra_irrel (cfg : Cfg) (env : Env) (f : Nat) (σ : List (Str × RTy)) (ra ra' : Option Rule) (tag : Option Str)
+    (name : Str) (shape : Shape) (fields : List Field) (vals : List RVal) (h : shape ≠ .named) :
+    Serde.serStructBody cfg env f σ ra tag name shape fields vals = Serde.serStructBody cfg env f σ ra' tag name shape fields vals := by
+  cases f with
+  | zero => simp [Serde.serStructBody]
+  | succ f' =>
+    cases shape with
+    | named => exact absurd rfl h
+    | unit => simp [Serde.serStructBody]
+    | tuple => simp [Serde.serStructBody]
+
+theorem structBody_ra_irrel (cfg : Cfg) (env : Env) (ra ra' : Option Rule) (tag : Option (Str × Str))
+    (shape : Shape) (fields : List Field) (h : shape ≠ .named) :
+    structBody cfg env ra tag shape fields = structBody cfg env ra' tag shape fields := by
+  cases shape with
+  | named => exact absurd rfl h
+  | unit => simp [structBody]
+  | tuple => simp [structBody]
+
+theorem structBody_unitLike (cfg : Cfg) (env : Env) (ra : Option Rule) (var : Variant) (h : var.unitLike = true) :
+    structBody cfg env ra none var.shape var.fields = some .null := by
+  unfold Variant.unitLike at h
+  simp only [Bool.or_eq_true, decide_eq_true_eq, Bool.and_eq_true] at h
+  rcases h with h | ⟨h1, h2⟩
+  · simp [structBody, h]
+  · simp only [structBody, h1]
+    match hf : var.fields, h2 with
+    | [fld], h2 => simp [h2]
+    | [], h2 => simp at h2
+    | _ :: _ :: _, h2 => simp at h2
+
+theorem single_obj (D : Decls) (k : Str) (T : Ts) (j : JVal) (h : Member D T j) :
+    Member D (.obj [({ name := k }, T)]) (.obj [(k, j)]) := by
+  have := obj_sound D [(k, T, j)] (by simp) (by intro x hx; simp at hx; subst hx; exact h)
+  simpa using this
+
+theorem pair_obj (D : Decls) (k1 k2 : Str) (T1 T2 : Ts) (j1 j2 : JVal) (hne : k1 ≠ k2) (h1 : Member D T1 j1) (h2 : Member D T2 j2) :
+    Member D (.obj [({ name := k1 }, T1), ({ name := k2 }, T2)]) (.obj [(k1, j1), (k2, j2)]) := by
+  have := obj_sound D [(k1, T1, j1), (k2, T2, j2)] (by simp [hne]) (by
+    intro x hx; simp at hx
+    rcases hx with rfl | rfl
+    · exact h1
+    · exact h2)
+  simpa using this
+
+/-- one variant: what serde writes for a value of the variant inhabits the arm the derive prints for it -/
+theorem variant_sound (cfg : Cfg) (env : Env) (n : Nat) (hS : ∀ m, m < n → Sound cfg env m)
+    (f : Nat) (hf : f ≤ n) (it : Item) (var : Variant) (vals : List RVal) (j : JVal) (T : Ts)
+    (hs : Serde.serVariant cfg env f it [] var vals = some j) (hc : cleanVL vals = true)
+    (hok : variantOk cfg it var = true) (hT : variantTs cfg env it var = some T) :
+    Member (declsOf cfg env) T j := by
+  cases f with
+  | zero => simp [Serde.serVariant] at hs
+  | succ f' =>
+    simp only [variantOk, Bool.and_eq_true, Bool.not_eq_true', Option.isNone_iff_eq_none, beq_iff_eq] at hok
+    obtain ⟨⟨⟨⟨hinl, hta⟩, hto⟩, hname⟩, hra, htg⟩ := hok
+    simp only [Serde.serVariant] at hs
+    by_cases hskip : var.attr.skip = true
+    · simp [hskip] at hs
+    · simp only [hskip, Bool.false_eq_true, ↓reduceIte] at hs
+      simp only [variantTs] at hT
+      rw [hname] at hT
+      -- the two `rename_all` views agree wherever they are looked at
+      have hbody : ∀ (tag : Option Str) (nm : Str) (c : JVal) (B : Ts),
+          Serde.serStructBody cfg env f' [] (Serde.renameAllS it var) tag nm var.shape var.fields vals = some c →
+          bodyOk cfg (renameAllT it var) tag var.shape var.fields = true →
+          var.unitLike = false →
+          structBody cfg env (renameAllT it var)
+            (tag.map fun t => (t, nm)) var.shape var.fields = some B →
+          Member (declsOf cfg env) B c := by
+        intro tag nm c B h1 h2 hul h3
+        have hnt : ∀ fld, var.shape = .tuple → var.fields = [fld] → fld.attr.skip = false := by
+          intro fld hsh hfl
+          unfold Variant.unitLike at hul
+          simp only [hsh, hfl, Bool.or_eq_false_iff, Bool.and_eq_false_iff] at hul
+          simpa using hul.2
+        by_cases hsh : var.shape = .named
+        · have e : (renameAllT it var) = (Serde.renameAllS it var) := by
+            unfold renameAllT Serde.renameAllS
+            cases var.attr.renameAll <;> simp [hsh]
+          rw [e] at h2 h3
+          exact structBody_sound cfg env n hS f' (by omega) _ tag nm var.shape var.fields vals c B h1 hc h2 hnt h3
+        · rw [serStructBody_ra_irrel cfg env f' [] _ (renameAllT it var) tag nm var.shape var.fields vals hsh] at h1
+          exact structBody_sound cfg env n hS f' (by omega) _ tag nm var.shape var.fields vals c B h1 hc h2 hnt h3
+      cases htgd : (if var.attr.untagged = true then Derive.Tagged.untagged else Derive.tagged it.attr) with
+      | untagged =>
+        simp only [htgd] at hs hT htg
+        by_cases hul : var.unitLike = true
+        · simp only [hul, ↓reduceIte] at hs
+          rw [structBody_unitLike cfg env _ var hul] at hT
+          simp only [Option.some.injEq] at hs hT
+          rw [← hs, ← hT]; exact Member.null
+        · have hul' : var.unitLike = false := by simpa using hul
+          simp only [hul', Bool.false_eq_true, ↓reduceIte] at hs
+          exact hbody none _ j T hs htg hul' hT
+      | externally =>
+        simp only [htgd] at hs hT htg
+        by_cases hul : var.unitLike = true
+        · simp only [hul, ↓reduceIte, Option.some.injEq] at hs hT
+          rw [← hs, ← hT]; exact Member.lit _
+        · have hul' : var.unitLike = false := by simpa using hul
+          simp only [hul', Bool.false_eq_true, ↓reduceIte] at hs hT
+          cases hcnt : Serde.serStructBody cfg env f' [] (Serde.renameAllS it var) none
+              (Serde.variantKey cfg it.attr.renameAll var) var.shape var.fields vals with
+          | none => simp [hcnt] at hs
+          | some c =>
+            cases hB : structBody cfg env (renameAllT it var)
+                none var.shape var.fields with
+            | none => simp [hB] at hT
+            | some B =>
+              simp only [hcnt, Option.map_some, Option.some.injEq] at hs
+              simp only [hB, Option.map_some, Option.some.injEq] at hT
+              rw [← hs, ← hT]
+              exact single_obj _ _ B c (hbody none _ c B hcnt htg hul' hB)
+      | adjacently t ct =>
+        simp only [htgd, Bool.and_eq_true, bne_iff_ne, ne_eq] at hs hT htg
+        by_cases hul : var.unitLike = true
+        · simp only [hul, ↓reduceIte, Option.some.injEq] at hs hT
+          rw [← hs, ← hT]; exact single_obj _ t _ _ (Member.lit _)
+        · have hul' : var.unitLike = false := by simpa using hul
+          simp only [hul', Bool.false_eq_true, ↓reduceIte] at hs hT
+          cases hcnt : Serde.serStructBody cfg env f' [] (Serde.renameAllS it var) none
+              (Serde.variantKey cfg it.attr.renameAll var) var.shape var.fields vals with
+          | none => simp [hcnt] at hs
+          | some c =>
+            cases hB : structBody cfg env (renameAllT it var)
+                none var.shape var.fields with
+            | none => simp [hB] at hT
+            | some B =>
+              simp only [hcnt, Option.map_some, Option.some.injEq] at hs
+              simp only [hB, Option.map_some, Option.some.injEq] at hT
+              rw [← hs, ← hT]
+              exact pair_obj _ t ct _ B _ c htg.1 (Member.lit _) (hbody none _ c B hcnt htg.2 hul' hB)
+      | internally t =>
+        simp only [htgd, Bool.and_eq_true] at hs hT htg
+        by_cases hul : var.unitLike = true
+        · simp only [hul, ↓reduceIte, Option.some.injEq] at hs hT
+          rw [← hs, ← hT]; exact single_obj _ t _ _ (Member.lit _)
+        · have hul' : var.unitLike = false := by simpa using hul
+          simp only [hul', Bool.false_eq_true, ↓reduceIte] at hs hT
+          cases hsh : var.shape with
+          | named =>
+            simp only [hsh] at hs hT
+            have h2 := htg.2
+            rw [hsh] at h2
+            have := hbody (some t) (Serde.variantKey cfg it.attr.renameAll var) j T (by rw [hsh]; exact hs) (by rw [hsh]; exact h2) hul' (by rw [hsh]; simpa using hT)
+            exact this
+          | unit =>
+            unfold Variant.unitLike at hul'
+            simp [hsh] at hul'
+          | tuple => simp [hsh] at hT
+
+/-- the declaration of an item is found under its TypeScript name (names are unique) -/
+theorem lookup_decl_in (cfg : Cfg) (env : Env) : ∀ (l : List Item) (it : Item) (b : Ts),
+    (l.map Derive.tsName).Nodup → it ∈ l → itemBody cfg env it = some b →
+    lookupDecl (l.filterMap fun x => (itemBody cfg env x).map fun bb => (Derive.tsName x, ([] : List Str), bb)) (Derive.tsName it) = some ([], b)
+  | [], _, _, _, h, _ => by cases h
+  | x :: xs, it, b, hnd, hmem, hb => by
+    simp only [List.map_cons, List.nodup_cons] at hnd
+    rcases List.mem_cons.mp hmem with rfl | hmem'
+    · simp [List.filterMap_cons, hb, lookupDecl]
+    · have hne : Derive.tsName x ≠ Derive.tsName it := by
+        intro h
+        apply hnd.1
+        rw [h]
+        exact List.mem_map.mpr ⟨it, hmem', rfl⟩
+      have ih := lookup_decl_in cfg env xs it b hnd.2 hmem' hb
+      cases hx : itemBody cfg env x with
+      | none => simp only [List.filterMap_cons, hx, Option.map_none]; exact ih
+      | some bx =>
+        simp only [List.filterMap_cons, hx, Option.map_some]
+        simp only [lookupDecl, List.find?_cons, hne, decide_false] at ih ⊢
+        exact ih
+
+theorem variantsTs_mem (cfg : Cfg) (env : Env) (it : Item) : ∀ (vs : List Variant) (arms : List Ts) (var : Variant),
+    variantsTs cfg env it vs = some arms → var ∈ vs → var.attr.skip = false →
+    ∃ Tv, variantTs cfg env it var = some Tv ∧ Tv ∈ arms
+  | [], _, _, _, h, _ => by cases h
+  | v :: vs, arms, var, ha, hmem, hsk => by
+    simp only [variantsTs, bind, Option.bind] at ha
+    cases hr : variantsTs cfg env it vs with
+    | none => simp [hr] at ha
+    | some rest =>
+      simp only [hr] at ha
+      rcases List.mem_cons.mp hmem with rfl | hmem'
+      · simp only [hsk, Bool.false_eq_true, ↓reduceIte] at ha
+        cases hv : variantTs cfg env it var with
+        | none => simp [hv] at ha
+        | some Tv =>
+          simp only [hv, pure, Option.some.injEq] at ha
+          exact ⟨Tv, rfl, by rw [← ha]; simp⟩
+      · obtain ⟨Tv, h1, h2⟩ := variantsTs_mem cfg env it vs rest var hr hmem' hsk
+        by_cases hvs : v.attr.skip = true
+        · simp only [hvs, ↓reduceIte, pure, Option.some.injEq] at ha
+          exact ⟨Tv, h1, by rw [← ha]; exact h2⟩
+        · simp only [hvs, Bool.false_eq_true, ↓reduceIte] at ha
+          cases hv : variantTs cfg env it v with
+          | none => simp [hv] at ha
+          | some Tv' =>
+            simp only [hv, pure, Option.some.injEq] at ha
+            exact ⟨Tv, h1, by rw [← ha]; simp [h2]⟩
+
+/-- one more unit of fuel: if every shallower serialization is sound, so is this one -/
+theorem item_step (cfg : Cfg) (env : Env) (hF : fragB cfg env = true) (n : Nat) (hS : ∀ m, m < n → Sound cfg env m) :
+    Sound cfg env n := by
+  intro id args v j it targs hfind hs hc
+  simp only [fragB, Bool.and_eq_true, List.all_eq_true, decide_eq_true_eq] at hF
+  obtain ⟨⟨⟨hitems, _hnames⟩, htsnames⟩, hbodies⟩ := hF
+  have hmem : it ∈ env := List.mem_of_find?_eq_some hfind
+  have hok := hitems it hmem
+  have hbody := hbodies it hmem
+  obtain ⟨body, hb⟩ := Option.isSome_iff_exists.mp hbody
+  have hlook : lookupDecl (declsOf cfg env) (Derive.tsName it) = some ([], body) :=
+    lookup_decl_in cfg env env it body htsnames hmem hb
+  refine Member.ref hlook ?_
+  rw [List.zip_nil_left, subst_nil]
+  cases n with
+  | zero => simp [Serde.serItem] at hs
+  | succ f =>
+    simp only [Serde.serItem, hfind] at hs
+    simp only [itemOk, Bool.and_eq_true, List.isEmpty_iff, Option.isNone_iff_eq_none, beq_iff_eq] at hok
+    obtain ⟨⟨⟨⟨⟨hgen, _⟩, _⟩, _⟩, _⟩, hrest⟩ := hok
+    simp only [hgen, List.zip_nil_left, List.map_nil] at hs
+    by_cases hen : it.isEnum = true
+    · simp only [hen, ↓reduceIte] at hs hrest
+      cases v with
+      | variant idx vals =>
+        simp only at hs
+        cases hvar : it.variants[idx]? with
+        | none => simp [hvar] at hs
+        | some var =>
+          simp only [hvar] at hs
+          have hvmem : var ∈ it.variants := List.mem_of_getElem? hvar
+          have hvok : variantOk cfg it var = true := by
+            rw [List.all_eq_true] at hrest; exact hrest var hvmem
+          have hnsk : var.attr.skip = false := by
+            cases f with
+            | zero => simp [Serde.serVariant] at hs
+            | succ f' =>
+              by_cases h : var.attr.skip = true
+              · simp [Serde.serVariant, h] at hs
+              · simpa using h
+          simp only [itemBody, hen, ↓reduceIte] at hb
+          have hne : it.variants.isEmpty = false := by
+            cases hv : it.variants with
+            | nil => rw [hv] at hvmem; cases hvmem
+            | cons _ _ => rfl
+          simp only [hne, Bool.false_eq_true, ↓reduceIte, bind, Option.bind] at hb
+          cases harms : variantsTs cfg env it it.variants with
+          | none => simp [harms] at hb
+          | some arms =>
+            simp only [harms] at hb
+            obtain ⟨Tv, hTv, hin⟩ := variantsTs_mem cfg env it it.variants arms var harms hvmem hnsk
+            have hane : arms.isEmpty = false := by
+              cases arms with
+              | nil => cases hin
+              | cons _ _ => rfl
+            simp only [hane, Bool.false_eq_true, ↓reduceIte, pure, Option.some.injEq] at hb
+            rw [← hb]
+            have hcv : cleanVL vals = true := by simpa [cleanV] using hc
+            exact Member.union hin (variant_sound cfg env (f + 1) hS f (by omega) it var vals j Tv hs hcv hvok hTv)
+      | _ => simp at hs
+    · have hen' : it.isEnum = false := by simpa using hen
+      simp only [hen', Bool.false_eq_true, ↓reduceIte, Bool.and_eq_true, Bool.not_eq_true'] at hs hrest
+      cases v with
+      | strukt vals =>
+        simp only at hs
+        have hcv : cleanVL vals = true := by simpa [cleanV] using hc
+        simp only [itemBody, hen', Bool.false_eq_true, ↓reduceIte] at hb
+        have hnt : ∀ fld, it.shape = .tuple → it.fields = [fld] → fld.attr.skip = false := by
+          intro fld hsh hfl
+          have := hrest.2
+          simp only [hsh, hfl, beq_self_eq_true, Bool.true_and] at this
+          exact this
+        exact structBody_sound cfg env (f + 1) hS f (by omega) it.attr.renameAll it.attr.tag (Derive.tsName it) it.shape it.fields vals j body hs hcv hrest.1 hnt hb
+      | _ => simp at hs
+
+/-- **every serialization of a user type is sound**, at every fuel -/
+theorem all_sound (cfg : Cfg) (env : Env) (hF : fragB cfg env = true) : ∀ n m, m < n → Sound cfg env m
+  | 0, _, h => by omega
+  | n + 1, m, h => by
+    by_cases hm : m < n
+    · exact all_sound cfg env hF n m hm
+    · have : m = n := by omega
+      subst this
+      exact item_step cfg env hF m (all_sound cfg env hF m)
+
 end TsRs
